@@ -5,6 +5,9 @@
 set -u
 NAME=$1
 OUT=/verif/neutral/$NAME
+# several matrix runners may work on the same list: each refactoring is claimed by one of them
+[ -z "${NEUTRAL_CLAIMS:-}" ] && [ "${SKIP_TESTS:-0}" = 1 ] && [ -d /verif/.work/final2/claims ] && NEUTRAL_CLAIMS=/verif/.work/final2/claims
+if [ -n "${NEUTRAL_CLAIMS:-}" ]; then mkdir "$NEUTRAL_CLAIMS/claim_$NAME" 2>/dev/null || { echo "claimed elsewhere"; exit 0; }; fi
 TMP=$(mktemp -d /tmp/neutraleval.XXXXXX)
 trap 'rm -rf "$TMP"' EXIT
 (cd /repo && git archive HEAD | tar -x -C "$TMP" && cp Cargo.lock "$TMP/Cargo.lock")
